@@ -1,6 +1,10 @@
 import GomlVerif.Driver.C03
 import GomlVerif.Driver.C09
 import GomlVerif.Model.AnfFrag
+import GomlVerif.Model.C03presMono
+import GomlVerif.Model.C03presSig
+import GomlVerif.Model.C03presMatch
+import GomlVerif.Driver.C06
 /-!
 `gomlmodel c03pres`: the hypotheses and the conclusions of the preservation theorems
 (`Props/C03pres.lean`) evaluated on REAL stage dumps.
@@ -44,6 +48,27 @@ def runAnf (id : String) (SL SA : Sig) : String :=
   s!"\tclosed_in={count clIn}\tclosed_both={count clBoth}\tclosed_contra={" ".intercalate (clContra.take 5)}" ++
   s!"\tnot_in_hyp={" ".intercalate (notIn.take 5)}"
 
+/-- `(pres mono <wtcase core> <wtcase mono>)`: the decidable hypotheses of `mono_phase1_preserves_wtProg_partial`
+(`sigClosedB`, every generic function `wtFn`, `Mono.presHypProg`) on the REAL Core dump, and its conclusion
+re-evaluated on the model's phase-1 output; the real Mono dump (after phase 2) is judged for comparison -/
+def runMono (id : String) (SC SM : Sig) (fuel : Nat) : String :=
+  let F := Mono.origFns SC.fns
+  let closed := sigClosedB SC
+  let wtIn := F.map (wtFn SC)
+  let wtOutReal := SM.fns.map (wtFn SM)
+  match Mono.phase1 fuel SC.fns with
+  | none => s!"{id}\tmono\tphase1=fuel\tfns={F.length}"
+  | some c' =>
+    let hyp := Mono.presHypProg SC fuel SC.fns
+    let S' := Mono.presSig SC c'.out
+    let wtOut := c'.out.map (wtFn S')
+    let appl := closed && wtIn.all (fun b => b) && hyp
+    let contra := appl && !(wtOut.all (fun b => b))
+    let b2n (b : Bool) : Nat := if b then 1 else 0
+    s!"{id}\tmono\tphase1=ok\tfns={F.length}\twt_in={count wtIn}\tsig_closed={b2n closed}\thyp_prog={b2n hyp}" ++
+    s!"\tapplicable_prog={b2n appl}\tinstances={c'.out.length}\twt_out_model={count wtOut}" ++
+    s!"\treal_fns={SM.fns.length}\twt_out_real={count wtOutReal}\tcontra={if contra then "program" else ""}\tnot_in_hyp={if hyp then "" else "whole-program"}"
+
 def runLine (l : String) : String :=
   let (id, rest) := splitTab l
   match Sexp.parse rest with
@@ -51,10 +76,53 @@ def runLine (l : String) : String :=
     match C03.decWt a, C03.decWt b with
     | some (_, SL), some (_, SA) => runAnf id SL SA
     | _, _ => s!"{id}\tdecode-error"
+  | some (.list [.atom "pres", .atom "mono", a, b]) =>
+    match C03.decWt a, C03.decWt b with
+    | some (_, SC), some (_, SM) => runMono id SC SM 5000
+    | _, _ => s!"{id}\tdecode-error"
   | _ => s!"{id}\tparse-error"
 
 def main : IO Unit := do
   let stdin ← IO.getStdin
   forEachLine stdin fun l => IO.println (runLine l)
+
+/-! ### `gomlmodel c03presmatch`: `matchc_preserves_closed` on the REAL match sites (input: `c06.cases.tsv`) -/
+
+open Goml.Match in
+/-- one `compile_match` site: the decidable hypotheses (`presHypRows`, `presHypNames`) on the real pattern
+matrix, closedness of the MODEL's tree (the theorem's conclusion) and closedness of the REAL Core
+expression the compiler emitted for the site -/
+def runMatchSite (S : Match.Sig) (site : C06.Site) (real : String × String) : String :=
+  let si := C06.mkSite site
+  let Γ := ["missing", "string_print", si.x, si.scrutVar]
+  let T := [(si.x, si.scrutTy)]
+  let hyp := presHypRows S fvE Γ T si.rows && presHypNames T
+  let (mk, mclosed) := match compileRows S (measure si.rows + 1) si.ty si.n0 si.rows with
+    | some (.ok r) => ("tree", closedE Γ r.1.toExpr)
+    | some (.error _) => ("error", true)
+    | none => ("fuel", true)
+  let (rk, rclosed) := match real.1 with
+    | "CORE" =>
+      match (Sexp.parse real.2).bind decExpr with
+      | some core => ("core", closedE Γ core)
+      | none => ("decode-error", true)
+    | k => (k.toLower, true)
+  let b2n (b : Bool) : Nat := if b then 1 else 0
+  s!"hyp={b2n hyp}\tmodel={mk}\tclosed_model={b2n mclosed}\treal={rk}\tclosed_real={b2n rclosed}\tcontra={b2n (hyp && !mclosed)}"
+
+def mainMatch : IO Unit := do
+  let stdin ← IO.getStdin
+  let sigRef ← IO.mkRef ({ enums := [], structs := [], gen := Match.realGen } : Match.Sig)
+  forEachLine stdin fun l => do
+    match l.splitOn "\t" with
+    | [_, "SIG", sx] =>
+      match (Sexp.parse sx).bind C06.decSig with
+      | some S => sigRef.set S
+      | none => IO.println s!"#sig-decode-error"
+    | id :: "SITE" :: sx :: kind :: payload :: _ =>
+      match (Sexp.parse sx).bind C06.decSite with
+      | some site => IO.println s!"{id}\t{runMatchSite (← sigRef.get) site (kind, payload)}"
+      | none => IO.println s!"{id}\tsite-decode-error"
+    | _ => pure ()
 
 end Goml.Driver.C03pres
